@@ -49,9 +49,11 @@ def load_reference() -> dict | None:
 
 def local_names(fn: ast.FunctionDef) -> set[str]:
     out = set()
+    comp_scoped = {id(t) for c in ast.walk(fn) if isinstance(c, ast.comprehension) for t in ast.walk(c.target)}
     for n in ast.walk(fn):
         if isinstance(n, ast.Name) and isinstance(n.ctx, (ast.Store, ast.Del)):
-            out.add(n.id)
+            if id(n) not in comp_scoped:       # a comprehension's variable lives in the comprehension only
+                out.add(n.id)
         elif isinstance(n, ast.ExceptHandler) and n.name:
             out.add(n.name)
         elif isinstance(n, (ast.FunctionDef, ast.AsyncFunctionDef, ast.ClassDef)) and n is not fn:
@@ -130,13 +132,13 @@ def shape(fn: ast.FunctionDef) -> str:
     return ' '.join(parts)
 
 
-def class_private_attrs(ci) -> dict[str, list[str]]:
-    """private attribute -> sorted list of 'method:load|store' uses inside the class."""
+def class_private_attrs(ci, by_method: bool = False) -> dict[str, list[str]]:
+    """private attribute -> sorted list of its uses inside the class ('Load' / 'Store', or 'method:Load' with by_method)."""
     out: dict[str, list[str]] = {}
     for mname, m in list(ci.methods.items()) + [(k + '#setter', v) for k, v in getattr(ci, 'setters', {}).items()]:
         for n in ast.walk(m.node):
             if isinstance(n, ast.Attribute) and isinstance(n.value, ast.Name) and n.value.id in ('self', 'cls') and n.attr.startswith('_') and not n.attr.startswith('__'):
-                out.setdefault(n.attr, []).append(f'{type(n.ctx).__name__}')
+                out.setdefault(n.attr, []).append(f'{mname}:{type(n.ctx).__name__}' if by_method else f'{type(n.ctx).__name__}')
     return {k: sorted(v) for k, v in out.items()}
 
 
@@ -151,7 +153,7 @@ def build_reference(repo) -> dict:
                                'assigns': plain_assignments(fi.node), 'elementwise': element_wise_receivers(fi.node)}
     ref['modules'] = {m.name: sorted(m.assigns) for m in repo.modules.values()}
     for q, ci in repo.classes.items():
-        ref['classes'][q] = {'attrs': class_private_attrs(ci), 'methods': sorted(ci.methods)}
+        ref['classes'][q] = {'attrs': class_private_attrs(ci), 'attrs_m': class_private_attrs(ci, True), 'methods': sorted(ci.methods)}
     return ref
 
 
@@ -512,16 +514,48 @@ def _instantiate(h, call, skip_first, caller_locals, recv_name, target: str | No
     wrapper = ast.Module(body=body, type_ignores=[])
     h_locals = local_names(h.node)
     params = set(m)
-    if params & h_locals:          # a parameter is rebound in the helper
-        return None
+    rebound = params & h_locals
+    pre_rebound = []
+    if rebound:
+        # a parameter the helper rebinds is a local of the helper that starts as the argument
+        rets0 = [n for n in ast.walk(wrapper) if isinstance(n, ast.Return)]
+        for p_ in sorted(rebound):
+            a_ = m[p_]
+            same = isinstance(a_, ast.Name) and target is not None and a_.id == target and rets0 \
+                and all(isinstance(r.value, ast.Name) and r.value.id == p_ for r in rets0)
+            if same:
+                new_name = target           # `x = helper(.., x, ..)` returning that parameter: the helper works on x itself
+            else:
+                new_name = f'{p_}__{h.name.strip("_")}'
+                pre_rebound.append(ast.Assign(targets=[ast.Name(id=new_name, ctx=ast.Store())], value=copy.deepcopy(a_)))
+            for n in ast.walk(wrapper):
+                if isinstance(n, ast.Name) and n.id == p_:
+                    n.id = new_name
+            del m[p_]
+            h_locals = (h_locals - {p_}) | {new_name}
+        params = set(m)
     # helper locals must not capture caller variables
     ren = {}
     # ... except the local the helper returns, when the caller assigns the result to a variable of its own: that local *is* the target
     rets = [n for n in ast.walk(wrapper) if isinstance(n, ast.Return)]
     ret_local = None
+    def _arg_reads_target_safely():
+        # arguments that read the caller's target are fine when the helper has finished with those parameters before it first
+        # binds the local it returns: its first statement is that binding, and they are read nowhere after it
+        ps = [p_ for p_, a in m.items() if any(isinstance(n, ast.Name) and n.id == target for n in ast.walk(a))]
+        if not ps:
+            return True
+        first = wrapper.body[0] if wrapper.body else None
+        if not (isinstance(first, (ast.Assign, ast.AnnAssign)) and getattr(first, 'value', None) is not None):
+            return False
+        t0 = first.targets[0] if isinstance(first, ast.Assign) and len(first.targets) == 1 else getattr(first, 'target', None)
+        if not (isinstance(t0, ast.Name) and t0.id == rets[0].value.id):
+            return False
+        later = [n for st_ in wrapper.body[1:] for n in ast.walk(st_) if isinstance(n, ast.Name) and n.id in ps]
+        return not later
     if target is not None and rets and all(isinstance(r.value, ast.Name) and r.value.id == rets[0].value.id for r in rets if r.value is not None) \
             and all(r.value is not None for r in rets) and rets[0].value.id in h_locals \
-            and not any(isinstance(n, ast.Name) and n.id == target for a in m.values() for n in ast.walk(a)) \
+            and _arg_reads_target_safely() \
             and (target not in h_locals or target == rets[0].value.id):
         ret_local = rets[0].value.id
         ren[ret_local] = target
@@ -546,7 +580,7 @@ def _instantiate(h, call, skip_first, caller_locals, recv_name, target: str | No
         if first != recv_name:
             mapping[first] = ast.Name(id=recv_name, ctx=ast.Load())
     wrapper = _Subst(mapping).visit(wrapper)
-    return kind, prelude + wrapper.body
+    return kind, pre_rebound + prelude + wrapper.body
 
 
 def _first_evaluated_call(e: ast.expr):
@@ -1239,6 +1273,9 @@ def _scalarise_records(repo, fi, records, known_locals) -> list[str]:
                 for n in ast.walk(fn):
                     if isinstance(n, ast.Name) and n.id == name and isinstance(n.ctx, ast.Load):
                         par = pm_.get(id(n))
+                        if isinstance(par, ast.Starred) and isinstance(pm_.get(id(par)), ast.Call) and par in pm_.get(id(par)).args:
+                            uses.append(('star', par, pm_.get(id(par))))      # f(a, *v): the fields in order
+                            continue
                         if not (isinstance(par, ast.Attribute) and par.value is n and isinstance(par.ctx, ast.Load)):
                             ok = False
                             break
@@ -1304,6 +1341,8 @@ def _scalarise_records(repo, fi, records, known_locals) -> list[str]:
             return _Subst(mapping).visit(e) if mapping else e
         fail = False
         for kind, attr_node, call in uses:
+            if kind == 'star':
+                continue
             if kind == 'field':
                 repl[id(attr_node)] = ast.Name(id=scal[attr_node.attr], ctx=ast.Load())
             else:
@@ -1331,6 +1370,10 @@ def _scalarise_records(repo, fi, records, known_locals) -> list[str]:
             a.value = fields[f]
             assigns.append(a)
         body[idx:idx + 1] = assigns
+        for kind, star, call in uses:
+            if kind == 'star':
+                k_ = call.args.index(star)
+                call.args[k_:k_ + 1] = [ast.copy_location(ast.Name(id=scal[f], ctx=ast.Load()), star) for f in rec.fields]
         R().visit(fn)
         done.append(f'{name} = {rec.ci.name}(...) -> {", ".join(scal.values())}')
     return done
@@ -1873,6 +1916,23 @@ def _rename_attr_everywhere(repo, old: str, new: str, cls=None):
             for n in ast.walk(f.node):
                 if isinstance(n, ast.Attribute) and n.attr == old:
                     n.attr = new
+    # ... and where another function reaches into an object annotated as one of these classes (`variant: InstructionVariant`)
+    family = {c.name for c in [cls] + cls.all_subclasses()}
+    for f in repo.functions.values():
+        typed = {}
+        a = f.node.args
+        for p in a.posonlyargs + a.args + a.kwonlyargs:
+            if p.annotation is not None:
+                typed[p.arg] = _u(p.annotation)
+        for n in ast.walk(f.node):
+            if isinstance(n, ast.AnnAssign) and isinstance(n.target, ast.Name):
+                typed[n.target.id] = _u(n.annotation)
+        names = {v for v, t in typed.items() if t.strip('\'"').split('.')[-1] in family}
+        if not names:
+            continue
+        for n in ast.walk(f.node):
+            if isinstance(n, ast.Attribute) and n.attr == old and isinstance(n.value, ast.Name) and n.value.id in names:
+                n.attr = new
 
 
 def _recover_renames(repo, ref, log: dict) -> None:
@@ -1919,8 +1979,12 @@ def _recover_renames(repo, ref, log: dict) -> None:
         # (an attribute that merely moved to another class of the family is not gone, and one read from there is not new)
         gone = [a for a in rc['attrs'] if a not in now and a not in own_methods and a not in family_attrs]
         added = [a for a in now if a not in rc['attrs'] and a not in own_methods and a not in rc['methods']]
+        now_m = class_private_attrs(ci, True)
         for a in list(added):
             cands = [g for g in gone if rc['attrs'][g] == now[a]]
+            if len(cands) > 1 and 'attrs_m' in rc:
+                # several attributes are used alike: tell them apart by the methods that use them
+                cands = [g for g in cands if rc['attrs_m'].get(g) == now_m.get(a)]
             if len(cands) != 1 and len(gone) == 1 and len(added) == 1:
                 cands = gone
             if len(cands) != 1:
